@@ -67,6 +67,7 @@ structure DriverFacts where
   callbackSites : Nat            -- call sites of the callback inside the task
   taskReturnsEarly : Bool        -- a `return` inside the task
   sharedStores : List String     -- attributes of `self` / enclosing names the task stores to
+  diagnosticReads : List String  -- statements of `calculate` that READ a diagnostic for anything but the diagnostics' own bookkeeping
   viewSelection : List String    -- how the task selects its part of every region
   flattened : List String        -- where the selecting coordinates come from
   serialLoop : Bool              -- `for x in product: fill_one_cube(x)`
@@ -77,7 +78,7 @@ deriving Repr, DecidableEq
 /-- the shape `calcSerial`, `calcPooled`, the footprint discipline and "fresh regions per call" assume -/
 def DriverFacts.modelled (d : DriverFacts) (diagnostics : List String) : Bool :=
   d.regionsPerCall && d.callbackFirst && d.callbackSites == 1 && !d.taskReturnsEarly &&
-  d.sharedStores.all (fun s => diagnostics.contains s) &&
+  d.sharedStores.all (fun s => diagnostics.contains s) && d.diagnosticReads.isEmpty &&
   d.viewSelection == ["regions = [region[tuple(flattened_slice)] for region in regions]"] &&
   d.flattened.length == 1 && d.serialLoop && d.workerHandsBack && d.poolMapReraise
 
